@@ -13,6 +13,7 @@ package verifspec
 //@   ensures result == (d.alive || (len(d.objectFilter) == 0 && len(d.methodFilter) == 0))
 //@ func compiler/internal/dce.Info.SetAsAlive
 //@ property C05
+//@   assigns d.alive
 //@   ensures d.alive
 //@   ensures d.objectFilter == old(d.objectFilter) && d.methodFilter == old(d.methodFilter)
 //@ func compiler/internal/dce.Info.addDepName
@@ -165,3 +166,87 @@ package verifspec
 //@   assigns heap(pkgContext.pkgVars), heap(funcContext.allVars), heap(funcContext.localVars), heap(funcContext.objectNames)
 //@   panics_only_if true
 //@   ensures pkgLevelObj(key(o)) ==> dcedep(key(o)) == 1
+
+// ---- roots set while declarations are built (compiler/decls.go): a package-level variable declaration is a root when
+// its initialiser assigns more than one variable or has a side effect (analysis.HasSideEffect, under contract above);
+// import declarations, the program's main function and every init function are roots.
+//@ pure sideEff(e int) bool
+//@ extern compiler/internal/analysis.HasSideEffect
+//@   param x info
+//@   assigns nothing
+//@   ensures result == sideEff(key(x))
+// (externs compiler.Decl.Dce and dce.Info.SetName: linking.go)
+//@ extern compiler.varDeclFullName
+//@   param init
+//@   assigns nothing
+//@ extern compiler.funcContext.varPtrName
+//@   param fc o
+//@   assigns heap(pkgContext.pkgVars), heap(funcContext.allVars), heap(funcContext.localVars), heap(funcContext.objectNames)
+//@ extern compiler/internal/dce.Collector.CollectDCEDeps
+//@   param c decl f
+//@   assigns heap(pkgContext.pkgVars), heap(funcContext.allVars), heap(funcContext.localVars), heap(funcContext.objectNames), heap(Decl.InitCode), heap(Decl.Vars), heap(Decl.FuncDeclCode)
+//@ func compiler.funcContext.newVarDecl
+//@ property C05
+//@   requires fc != nil && fc.pkgCtx != nil && init != nil && len(init.Lhs) >= 1
+//@   requires fc.pkgCtx.Info != nil && fc.pkgCtx.Info.Info != nil && !isnil(fc.pkgCtx.Info.Info.Types) && !isnil(fc.pkgCtx.Info.Info.Uses)
+//@   panics_only_if true
+//@   loop 1 assigns heap(pkgContext.pkgVars), heap(funcContext.allVars), heap(funcContext.localVars), heap(funcContext.objectNames), heap(Decl.Vars), fc.pkgCtx.Info.Info.Types
+//@   loop 1 invariant 0 <= $i1 && $i1 <= len(init.Lhs) && d != nil
+//@   loop 1 invariant fc.pkgCtx != nil && fc.pkgCtx.Info != nil && fc.pkgCtx.Info.Info != nil && !isnil(fc.pkgCtx.Info.Info.Types) && !isnil(fc.pkgCtx.Info.Info.Uses)
+//@   ensures result != nil
+//@   ensures (len(init.Lhs) != 1 || sideEff(key(init.Rhs))) ==> asptr(dceOf(key(result)), "compiler/internal/dce.Info").alive
+
+// newFuncDecl: the main function of the main package and every init function are roots (methods called main or init are
+// not).  objName(o) is the object's name as a string identity.
+//@ extern compiler/typesutil.IsMethod
+//@   param o
+//@   assigns nothing
+//@   ensures result == isMethodObj(key(o))
+//@ pure isMethodObj(o int) bool
+// (extern go/types.object.Name: linking.go -- nameIsMain / nameIsInit say whether the object is called main / init)
+//@ extern go/types.object.Type
+//@   param o
+//@   assigns nothing
+//@ extern go/types.Named.Obj
+//@   param t
+//@   assigns nothing
+//@ extern compiler.funcContext.namedFuncContext
+//@   param fc inst
+//@ extern compiler.funcContext.translateTopLevelFunction
+//@   param fc fun
+//@ extern compiler.funcContext.callInitFunc
+//@   param fc init
+//@ extern compiler/internal/analysis.Info.IsBlocking
+//@   param info inst
+//@   assigns nothing
+//@ extern compiler/typesutil.RecvType
+//@   param sig
+//@   assigns nothing
+//@ func compiler.funcContext.newFuncDecl
+//@ property C05
+//@   requires fc != nil && fc.pkgCtx != nil && fun != nil && fun.Name != nil
+// (the instance is an instance of the declared function: what the type checker recorded for the name is its object)
+//@   requires fc.pkgCtx.Info != nil && fc.pkgCtx.Info.Info != nil && has(fc.pkgCtx.Info.Info.Defs, fun.Name) && key(fc.pkgCtx.Info.Info.Defs[key(fun.Name)]) == key(inst.Object)
+//@   panics_only_if true
+//@   assigns heap(pkgContext.pkgVars), heap(funcContext.allVars), heap(funcContext.localVars), heap(funcContext.objectNames), heap(Info.alive), heap(Info.objectFilter), heap(Info.methodFilter)
+//@   ensures result != nil && newobj(result) && len(result.FullName) > 0 && result.FullName[0] == 102
+//@   ensures !isMethodObj(key(inst.Object)) && nameIsInit(key(inst.Object)) ==> asptr(dceOf(key(result)), "compiler/internal/dce.Info").alive
+//@   ensures !isMethodObj(key(inst.Object)) && nameIsMain(key(inst.Object)) && isMainPkg(ref(fc.pkgCtx)) ==> asptr(dceOf(key(result)), "compiler/internal/dce.Info").alive
+
+// newImportDecl: the declaration that binds an imported package and runs its initialisation is always a root.
+//@ extern compiler.funcContext.importedPkgVar
+//@   param fc pkg
+//@   assigns heap(pkgContext.pkgVars), heap(funcContext.allVars)
+//@ extern compiler.importDeclFullName
+//@   param pkg
+//@   assigns nothing
+//@ extern compiler.funcContext.importInitializer
+//@   param fc impPath
+//@ extern go/types.Package.Path
+//@   param pkg
+//@   assigns nothing
+//@ func compiler.funcContext.newImportDecl
+//@ property C05
+//@   requires fc != nil && fc.pkgCtx != nil
+//@   panics_only_if true
+//@   ensures result != nil && asptr(dceOf(key(result)), "compiler/internal/dce.Info").alive
